@@ -92,7 +92,7 @@ class Tree:
             used = set()
             text = shell
             if depth == 0:
-                text += "v1 := 'one'\nvar-2 := 'two'\n"
+                text += "export v1 := 'one'\nexport var-2 := 'two'\n"
             submods = []
             if depth == 0 and rng.random() < 0.7:
                 submods.append("m")
@@ -137,7 +137,12 @@ class Tree:
 
 
 WORDS = ["r1", "r2", "r3", "build", "m", "n", "x", "al", "a", "b", "", "a=b", "=x", "v1=ov", "var-2=o=p", "zz=1", "m::r1",
-         "m::n::r1", "m::n", "m::", "::m", "m:::r1", "m:r1", "x::y", "n::r1", "d/x", "a b", "-", "--flag", "r1 ", "R1", "1a=2"]
+         "m::n::r1", "m::n", "m::", "::m", "m:::r1", "m:r1", "x::y", "n::r1", "d/x", "a b", "-", "--flag", "r1 ", "R1", "1a=2",
+         "v1=a/b", "v1=/", "var-2=../x/", "zz=p/q", "v1=.", "v1=", "v1=m::r1", "v1=r1"]
+
+
+def is_override(w):
+    return re.match(r"^[A-Za-z_][A-Za-z0-9_-]*=", w) is not None
 
 
 def classify_error(stderr):
@@ -168,6 +173,7 @@ def run_case(arg):
                            stderr=subprocess.PIPE)
         entries = C.read_vsh_log(logp)
         groups = []
+        envs = []
         bts = 0
         for e in entries:
             cmd = e["argv"][2]
@@ -179,7 +185,8 @@ def run_case(arg):
                 groups.append({"id": m.group(1), "values": m.group(2).split("|")[:-1]})
             else:
                 groups.append({"id": "?", "values": [cmd]})
-        return {"rc": p.returncode, "groups": groups, "default_backticks": bts, "stderr": p.stderr.decode("utf-8", "replace"), "raw": [e["argv"][2] for e in entries]}
+            envs.append({k: e["env"].get(k) for k in ("v1", "var-2")})
+        return {"rc": p.returncode, "groups": groups, "envs": envs, "default_backticks": bts, "stderr": p.stderr.decode("utf-8", "replace"), "raw": [e["argv"][2] for e in entries]}
 
 
 def parse_values(cmd, nparams):
@@ -197,7 +204,7 @@ def run(report):
     shell = 'set shell := ["%s", "-c"]\n' % C.VSH
     for sig in sigs:
         t = Tree.__new__(Tree)
-        t.files = {"justfile": shell + "v1 := 'one'\n\n" + recipe_text("r1", "r1", sig) + "\n" + recipe_text("r2", "r2", ["req"]) + "\n"}
+        t.files = {"justfile": shell + "export v1 := 'one'\n\n" + recipe_text("r1", "r1", sig) + "\n" + recipe_text("r2", "r2", ["req"]) + "\n"}
         t.model = {"recipes": [["r1", {"id": "r1", "name": "r1", "params": [param_model(k, i) for i, k in enumerate(sig)]}],
                                ["r2", {"id": "r2", "name": "r2", "params": [param_model("req", 0)]}]],
                    "modules": [], "default": {"id": "r1", "name": "r1", "params": [param_model(k, i) for i, k in enumerate(sig)]}}
@@ -222,12 +229,12 @@ def run(report):
             # the first word must not be an option or a search directory (C16's business)
             while words and words[0].startswith("-"):
                 words = words[1:]
-            if any(w in (".", "..") or "/" in w for w in words[:1]):
+            if any(w in (".", "..") or ("/" in w and not is_override(w)) for w in words[:1]):
                 continue
             # a search directory can only appear before the first argument: keep `/` words after a plain word
             bad = False
             for j, w in enumerate(words):
-                if "/" in w and all(re.match(r"^[A-Za-z_][A-Za-z0-9_-]*=", x) for x in words[:j]):
+                if "/" in w and not is_override(w) and all(is_override(x) for x in words[:j]):
                     bad = True
             if bad:
                 continue
@@ -275,6 +282,18 @@ def run(report):
             replay["observed"]["default_backticks"] = r["default_backticks"]
             report.failure("c05-default-evaluated", "a parameter default was evaluated %d times, expected %d (defaults are for omitted parameters only)" % (r["default_backticks"], want_bts), replay)
             continue
+        # an override replaces the variable's value: observed through the exported variable in root recipes
+        ov = {"v1": "one", "var-2": "two"} if "var-2" in t.variables else {"v1": "one"}
+        for k, v in m.get("overrides") or []:
+            ov[k] = v
+        if r["rc"] == 0 and r["groups"] == want:
+            wrong = [(g["id"], e) for g, e in zip(r["groups"], r["envs"]) if "." not in g["id"] and any(e.get(k) != v for k, v in ov.items())]
+            if wrong:
+                replay["expected_variables"] = ov
+                replay["observed"]["envs"] = r["envs"]
+                report.failure("c05-override-value", "a NAME=VALUE override did not set the variable to VALUE", replay)
+                continue
+            stats["override_values_checked"] = stats.get("override_values_checked", 0) + sum(1 for _ in (m.get("overrides") or []))
         if r["rc"] != 0 or r["groups"] != want:
             replay["expected"] = want
             if r["rc"] != 0 and not r["groups"]:
